@@ -119,3 +119,22 @@ def _f06a(pid, cfg, tr, v):
         if e[0] == 'Spawn' and isinstance(cfg['servers'][e[1] - 1], dict) and cfg['servers'][e[1] - 1]['kind'] == 'sched':
             return True
     return False
+
+
+@trigger('F-08a')
+def _f08a(pid, cfg, tr, v):
+    """FIFO-by-arrival broken by a customer that changed class while waiting (appended at the tail of its new class)"""
+    if v[0] != 'R' or v[2] not in (52, 54) or cfg.get('cct') is None:
+        return False
+    from props.c08 import starts
+    p, meta = starts(tr)
+    if v[1] >= len(p):
+        return False
+    fi, node, chosen = meta[v[1]]
+    changed = set()
+    for f in tr.frames[:fi + 1]:
+        for e in f['cev']:
+            if e[0] == 'ClassChangeW' and e[1] == node:
+                changed.add(e[2])
+    members = set(c[0] for q in p[v[1]][2] for c in q if c[1])
+    return bool(changed & members)
